@@ -612,6 +612,8 @@ fn evaluate_stub() -> Eval {
             seed: 0,
             overrides_write: false,
             in_place: false,
+            alternate_memory: false,
+            hold: 1,
             faults: vec![],
         }],
         schedule: vec![],
@@ -1234,6 +1236,16 @@ fn case_variants(case: &Case) -> Vec<Case> {
         if d.in_place {
             let mut c = case.clone();
             c.duts[di].in_place = false;
+            out.push(c);
+        }
+        if d.alternate_memory {
+            let mut c = case.clone();
+            c.duts[di].alternate_memory = false;
+            out.push(c);
+        }
+        if d.hold > 1 {
+            let mut c = case.clone();
+            c.duts[di].hold = 1;
             out.push(c);
         }
         if d.overrides_write {
